@@ -2235,7 +2235,14 @@ class NamespacedRefsContainer(RefsContainer):
 
     def read_loose_ref(self, name: Ref) -> bytes | None:
         """Read a loose reference."""
-        return self._refs.read_loose_ref(Ref(self._apply_namespace(name)))
+        contents = self._refs.read_loose_ref(Ref(self._apply_namespace(name)))
+        if contents is not None and contents.startswith(SYMREF):
+            # set_symbolic_ref() stores the target with the namespace prefix;
+            # callers (follow(), get_symrefs()) name refs without it
+            target = self._strip_namespace(contents[len(SYMREF) :])
+            if target is not None:
+                return SYMREF + target
+        return contents
 
     def get_packed_refs(self) -> dict[Ref, ObjectID]:
         """Get packed refs within this namespace."""
